@@ -1,6 +1,7 @@
 import Vet.Props.C11
 import Vet.Props.Commands
 import Vet.Props.Renew
+import Vet.Props.C11Violation
 #print axioms Vet.C11_local_audits
 #print axioms Vet.C11_imports
 #print axioms Vet.C11_publishers
@@ -22,3 +23,5 @@ import Vet.Props.Renew
 #print axioms Vet.Renew.C11_renew_crate
 #print axioms Vet.Renew.C06_renew_keeps_cap
 #print axioms Vet.Renew.renew_example
+#print axioms Vet.C11_local_violations_kept
+#print axioms Vet.C11_fixed_violation_pruned
